@@ -365,7 +365,9 @@ impl Ord for Uri {
 
 impl Hash for Uri {
 	fn hash<H: hash::Hasher>(&self, state: &mut H) {
-		self.parts().hash(state)
+		// Must agree with the hash of the same text seen as a reference
+		// (`Borrow<...Ref>` is implemented), where the scheme is optional.
+		self.as_uri_ref().hash(state)
 	}
 }
 
